@@ -27,7 +27,21 @@ FAULTY = [b'GET x HTTP/1.1\r\n\r\n', b'GET * HTTP/1.1\r\n\r\n', b'GET http://a/b
           b'POST /form-multipart-enctype-post-method HTTP/1.1\r\nContent-Type: multipart/form-data; boundary=B\r\n\r\n' + b'--B\r\nContent-Disposition: form-data; name="a"\r\n\r\n\r\n' * 150 + b'--B--\r\n',
           b'\xff\xfe\x00', b'', b'GET /../../etc/passwd HTTP/1.1\r\n\r\n', b'OPTIONS * HTTP/1.1\r\n\r\n',
           b'GET /f.txt HTTP/1.1\r\nRange: bytes=18446744073709551615-\r\n\r\n', b'HEAD /f.txt HTTP/9.9\r\n\r\n']
-KINDS = ['valid', 'faulty', 'early-close', 'rst-before', 'rst-after', 'half-sent', 'oversized', 'oversized-malformed', 'rst-before-accept', 'body-cut-short']
+# unusual but legal requests that have to be ANSWERED (whatever the status): targets and header values longer than any fixed cut a handler
+# or a logger may apply (100, 128, 255, 256, 512, 1024, 4096 bytes) made of multi-byte characters, in three alignments - for every
+# cut one of the alignments puts it INSIDE a character
+def _odd_table():
+    out = []
+    for L in (300, 1100, 4200):
+        for shift in range(3):
+            two, three = ('a' * shift + '\u0436' * (L // 2)).encode(), ('a' * shift + '\u76ee' * (L // 3)).encode()
+            out.append(b'GET /' + two + b' HTTP/1.1\r\nHost: x\r\n\r\n')
+            out.append(b'GET /f.txt?q=' + three + b' HTTP/1.1\r\nHost: x\r\n\r\n')
+            out.append(b'GET /f.txt HTTP/1.1\r\nHost: x\r\nX-Long: ' + two + b'\r\nReferer: http://x/' + three + b'\r\n\r\n')
+    return out
+ODD = _odd_table()
+_odd_next = [0]
+KINDS = ['valid', 'faulty', 'odd', 'early-close', 'rst-before', 'rst-after', 'half-sent', 'oversized', 'oversized-malformed', 'rst-before-accept', 'body-cut-short']
 
 def _conn(port, timeout=5):
     s = socket.create_connection(('127.0.0.1', port), timeout=timeout)
@@ -46,6 +60,10 @@ def one(server, kind, rng):
             r = rng.choice(FAULTY)
             try: return server.request(r, timeout=10), ''
             except Exception as e: return None, f'faulty request got no answer: {type(e).__name__} {r[:40]!r}'
+        if kind == 'odd':
+            r = ODD[_odd_next[0] % len(ODD)]; _odd_next[0] += 1
+            try: return server.request(r, timeout=10), ''
+            except Exception as e: return None, f'unusual but legal request got no answer: {type(e).__name__} {r[:60]!r} ({len(r)} bytes)'
         if kind == 'rst-before-accept':
             # a burst of connections that are reset while they still wait in the listen queue: the server process is stopped (SIGSTOP),
             # the kernel completes the handshakes, the resets arrive, the process continues and accept() hands over sockets whose
@@ -121,6 +139,9 @@ def histories(rng, tier):
     out = []
     for h in range(10 if quick else 120):
         out.append(_old_history(rng, tier, h, quick_len=quick))
+    # every unusual-but-legal request once, on one and on three workers, valid requests in between and at the end
+    for n in ((1, 3) if quick else (1, 2, 3, 4, 8)):
+        out.append(dict(n=n, hist=['valid'] + ['odd', 'odd', 'odd', 'valid'] * (len(ODD) // 3 + 1), label='unusual but legal requests'))
     allk = KINDS + G.NEW_KINDS
     def elem(k, n, quick_stall=False):
         return G.pick_variant(k, rng, n, quick_stall) if k in G.NEW_KINDS else k
@@ -179,7 +200,7 @@ def run_history(srv, hs, rng, ctx, res=None):
             r, note = one(srv, e, rng)
             bad = None
             if kind == 'valid': bad = G.judge_answer('valid', r, ctx)
-            elif kind == 'faulty' and r is None: bad = note
+            elif kind in ('faulty', 'odd') and r is None: bad = note
         else:
             r, note = G.run_new(srv, e, ctx)
             bad = G.judge_answer(e, r, ctx) if kind in G.DEMANDED + ('hold',) else None
